@@ -16,6 +16,7 @@ CONSTANTS
   HistCaps = {1, 2}
   HistReasons = {1, 2}
   HistAges = {0, 2}
+  HistMaxTime = 2
   MaxTime = 5
   MaxOps = 4
   SecUnit = 2
